@@ -351,7 +351,12 @@ func (tr *fnTrans) matchAts(pos token.Pos) []*AtSpec {
 		if at.Kind != "call" {
 			continue
 		}
-		if strings.Contains(at.Expr, "(") {
+		if strings.HasPrefix(at.Expr, "*.") {
+			// every call of a method of that name, whatever the receiver expression
+			if !strings.HasSuffix(text, at.Expr[1:]) {
+				continue
+			}
+		} else if strings.Contains(at.Expr, "(") {
 			if !strings.HasPrefix(full, at.Expr) {
 				continue
 			}
